@@ -111,11 +111,23 @@ def cmap4_subtable(m, use_range_offset=None, rng=None):
     """Format 4 subtable.  use_range_offset: set of segment indices stored through glyphIdArray (idRangeOffset != 0);
     with rng, a random subset is chosen and random idDelta values are mixed in so that 'glyphIdArray value + idDelta' wraps."""
     segs = cmap4_segments(m)
+    forced = set()
+    if use_range_offset is None and rng is not None:
+        # merge neighbouring runs separated by small gaps into one glyphIdArray segment: the unmapped code points in between
+        # are stored as 0 ("missing glyph", to which idDelta must NOT be added)
+        merged = []
+        for sg in segs[:-1]:
+            if merged and sg[0] - merged[-1][1] <= 9 and sg[1] - merged[-1][0] < 400 and rng.random() < 0.5:
+                merged[-1][1] = sg[1]
+                forced.add(len(merged) - 1)
+            else:
+                merged.append(list(sg))
+        segs = merged + [segs[-1]]
     n = len(segs)
     if use_range_offset is None:
         use_range_offset = set()
         if rng is not None:
-            use_range_offset = {i for i in range(n - 1) if rng.random() < 0.4}
+            use_range_offset = {i for i in range(n - 1) if rng.random() < 0.4} | forced
     gia = []
     ro = [0] * n
     deltas = [s[2] for s in segs]
